@@ -295,7 +295,7 @@ def weather_part(ctx, replay):
         r, c, sr, sc = (int(x) for x in t[2:6])
         means = [Fraction(x) for x in t[6:6 + r * c]]
         lines = out.get(k, [])
-        res = lines[-1] if lines else ""
+        res = next((l for l in reversed(lines) if l.startswith(("values", "err"))), "")
         stats["cases"] += 1
         bad_shape = (r, c) != (sr, sc)
         bad_mean = any(m < 0 or m > 1 for m in means)
@@ -307,8 +307,19 @@ def weather_part(ctx, replay):
         if not res.startswith("values"):
             ctx.violation("C12.weather.valid_rejected", "valid mean/deviation rasters rejected: %s" % res, case)
             continue
-        vals = [q(x) for x in res.split()[1:]]
+        # the result line is `values ...`; it is followed by `applied rate,suitability ...`
+        vline = [l for l in lines if l.startswith("values")]
+        aline = [l for l in lines if l.startswith("applied")]
+        vals = [q(x) for x in vline[-1].split()[1:]]
         stats["values"] += len(vals)
+        if not aline:
+            ctx.violation("C12.weather.not_applied", "no applied line in the harness output", case)
+            continue
+        for j, pair in enumerate(aline[-1].split()[1:]):
+            a, b = (q(x) for x in pair.split(","))
+            if a != 4 * vals[j] or b != vals[j] / 4:
+                ctx.violation("C12.weather.not_applied", "cell %d: generated coefficient %s, but reproductive rate 4 becomes %s and suitability 1/4 becomes %s" % (j, vals[j], a, b), case)
+                break
         stats["fallbacks"] += sum(1 for d in (lines[0].split()[1:] if lines else []) if not d.endswith(":-"))
         if len(vals) != r * c or any(v < 0 or v > 1 for v in vals):
             ctx.violation("C12.weather.out_of_range", "weather coefficients outside [0,1]: %s" % res[:120], case)
